@@ -170,7 +170,8 @@ theorem toHInfo_pools {s s' : State} (h : s'.pools = s.pools) (ip : IP) : toHInf
   unfold toHInfo; rw [h]
 
 theorem bindCommit_ok {t : State} (hf : NoFault t) (pod : Pod) (ns name : String) (uid : Nat) (node : String)
-    (ips : List IP) (tp : Pod) (hp : Tbl.get t.pods (ns, name) = some tp) (hu : uid = 0 ∨ tp.uid = uid) :
+    (ips : List IP) (tp : Pod) (hp : Tbl.get t.pods (ns, name) = some tp) (hu : uid = 0 ∨ tp.uid = uid)
+    (hnode : tp.node = "") :
     (bindCommit t pod ns name uid node ips).2.res = .ok ∧
       (bindCommit t pod ns name uid node ips).2.ips = ips.map (toHInfo t) := by
   unfold bindCommit
@@ -178,11 +179,12 @@ theorem bindCommit_ok {t : State} (hf : NoFault t) (pod : Pod) (ns name : String
   simp only [h1, Bool.false_eq_true, if_false]
   have hp' : Tbl.get t.api.1.pods (ns, name) = some tp := hp
   simp only [hp']
-  have : ¬ (uid ≠ 0 ∧ tp.uid ≠ uid) := by
-    rintro ⟨h1, h2⟩
-    rcases hu with h | h
-    · exact h1 h
-    · exact h2 h
+  have : ¬ ((uid ≠ 0 ∧ tp.uid ≠ uid) ∨ tp.node ≠ "") := by
+    rintro (⟨h1, h2⟩ | h3)
+    · rcases hu with h | h
+      · exact h1 h
+      · exact h2 h
+    · exact h3 hnode
   simp [this]
 
 /-- without an injected fault the crash plan never fires: the binding call is the plain `bindCommit` -/
@@ -190,6 +192,22 @@ theorem bindCommitX_nofault {t : State} (hf : NoFault t) (pod : Pod) (ns name : 
     (ips : List IP) : bindCommitX t pod ns name uid node ips = bindCommit t pod ns name uid node ips := by
   unfold bindCommitX
   simp [api_ok hf]
+
+/-- the Binding call is answered truthfully (no API fault), the pod exists, is the one the scheduler binds and is not
+    assigned to a node yet: the end of Bind is the plain `bindCommit` -/
+theorem bindFinish_plain (F : Facts) {t : State} (hf : NoFault t) (pod : Pod) (ns name : String) (uid : Nat)
+    (node : String) (ips : List IP) (tp : Pod) (hp : Tbl.get t.pods (ns, name) = some tp) (hu : uid = 0 ∨ tp.uid = uid)
+    (hnode : tp.node = "") :
+    bindFinish F t pod ns name uid node ips .truthful = bindCommit t pod ns name uid node ips := by
+  have : ¬ ((uid ≠ 0 ∧ tp.uid ≠ uid) ∨ tp.node ≠ "") := by
+    rintro (⟨h1, h2⟩ | h3)
+    · rcases hu with h | h
+      · exact h1 h
+      · exact h2 h
+    · exact h3 hnode
+  unfold bindFinish bindOutcome
+  simp only [hp, this, if_false, reduceCtorEq]
+  exact bindCommitX_nofault hf pod ns name uid node ips
 
 /-! ### Bind, unfolded once -/
 
@@ -220,8 +238,8 @@ theorem bind_eq (F : Facts) (t : State) (ns name : String) (uid : Nat) (node : S
       | .ok =>
         match (bindLoop A.1 (keyOf pod) node { policy := policyOf pod, node := node, uid := pod.uid }
             (infos.filterMap id) (A.2.2.filterMap id)).2 with
-        | .ok => bindCommitX (bindLoop A.1 (keyOf pod) node { policy := policyOf pod, node := node, uid := pod.uid }
-            (infos.filterMap id) (A.2.2.filterMap id)).1 pod ns name uid node (A.2.2.filterMap id)
+        | .ok => bindFinish F (bindLoop A.1 (keyOf pod) node { policy := policyOf pod, node := node, uid := pod.uid }
+            (infos.filterMap id) (A.2.2.filterMap id)).1 pod ns name uid node (A.2.2.filterMap id) ch.answer
         | e => ((bindLoop A.1 (keyOf pod) node { policy := policyOf pod, node := node, uid := pod.uid }
             (infos.filterMap id) (A.2.2.filterMap id)).1, { res := e }) := by
   subst hA
